@@ -45,9 +45,32 @@ def run_one(mod, case, ctx, cls="replay", idx=0):
     return outcome, out
 
 
+class CaseTimeout(BaseException):
+    pass
+
+
+def _limits():
+    """A runaway case must not take the sandbox down: cap the address space
+    (unless a sanitizer runtime, which reserves terabytes, is preloaded) and
+    arm a per-case wall-clock alarm whose firing is *inconclusive*."""
+    import resource
+    import signal
+    if not os.environ.get("LD_PRELOAD"):
+        try:
+            resource.setrlimit(resource.RLIMIT_AS, (6 << 30, 6 << 30))
+        except Exception:
+            pass
+
+    def on_alarm(signum, frame):
+        raise CaseTimeout()
+    signal.signal(signal.SIGALRM, on_alarm)
+    return signal
+
+
 def main(argv):
     spec = json.load(open(argv[1]))
     t0 = time.time()
+    signal = _limits()
     result = dict(spec=spec, violations=[], errors=[], import_error=None)
     ctx = Ctx()
     try:
@@ -68,6 +91,8 @@ def main(argv):
     shard, n_shards = spec["shard"], spec["n_shards"]
     want_samples = {}
     track = getattr(mod, "CRASH_IS_VIOLATION", False)
+    case_limit = getattr(mod, "CASE_LIMIT_S", {}).get(
+        tier, 120 if tier == "quick" else 900)
     g = 0
 
     def work():
@@ -96,7 +121,21 @@ def main(argv):
                     with open(argv[2] + ".cur", "w") as f:
                         json.dump(dict(cls=cls, idx=idx,
                                        case_repr=repr(case)), f)
-                outcome, viols = run_one(mod, case, ctx, cls, idx)
+                signal.alarm(case_limit)
+                try:
+                    outcome, viols = run_one(mod, case, ctx, cls, idx)
+                finally:
+                    signal.alarm(0)
+            except CaseTimeout:
+                result["errors"].append(dict(
+                    cls=cls, idx=idx, tb="case exceeded the %d s wall-clock "
+                    "watchdog (inconclusive, not a verdict)" % case_limit))
+                break
+            except MemoryError:
+                result["errors"].append(dict(
+                    cls=cls, idx=idx, tb="case exhausted the worker's memory "
+                    "limit (inconclusive, not a verdict)"))
+                break
             except Exception as e:
                 result["errors"].append(dict(cls=cls, idx=idx,
                                              tb=core.format_tb(e)))
